@@ -74,6 +74,10 @@ fn query_event(ont: &Ontology, a: u32, b: u32) -> Value {
         let (ta, tb) = (ont.hpo(a).unwrap(), ont.hpo(b).unwrap());
         let ids = |g: hpo::term::HpoGroup| -> Vec<u32> { g.iter().map(|x| x.as_u32()).collect() };
         let common = ids(ta.all_common_ancestor_ids(&tb));
+        let common_noself = ids(ta.common_ancestor_ids(&tb));
+        let updist = ta.distance_to_ancestor(&tb).map(|x| x as i64).unwrap_or(-1);
+        let uppath: Option<Vec<u32>> = ta.path_to_ancestor(&tb).map(|p| p.iter().map(|x| x.as_u32()).collect());
+        let rdist = tb.distance_to_term(&ta).map(|x| x as i64).unwrap_or(-1);
         let union = ids(ta.union_ancestor_ids(&tb));
         let dist = ta.distance_to_term(&tb).map(|x| x as i64).unwrap_or(-1);
         let path: Option<Vec<u32>> = ta.path_to_term(&tb).map(|p| p.iter().map(|x| x.as_u32()).collect());
@@ -105,7 +109,9 @@ fn query_event(ont: &Ontology, a: u32, b: u32) -> Value {
                 }
             }
         }
-        json!({"e": "Query", "a": a, "b": b, "common": common, "union": union, "dist": dist, "haspath": path.is_some(), "path": path.unwrap_or_default(), "sim_bad": bad})
+        json!({"e": "Query", "a": a, "b": b, "common": common, "common_noself": common_noself, "union": union, "dist": dist, "rdist": rdist,
+               "updist": updist, "hasuppath": uppath.is_some(), "uppath": uppath.unwrap_or_default(),
+               "haspath": path.is_some(), "path": path.unwrap_or_default(), "sim_bad": bad})
     });
     match r {
         Ok(v) => v,
